@@ -55,6 +55,7 @@ def run(F, tier):
     rep.rules.pop("G5", None)
     grules.g7(rep, tms, F)
     grules.g8(rep, tms)
+    grules.g9(rep, tms)
     options.o1(rep, F, ft, tms)
     co_occurrence(rep, tms, ft)
     rep.programs = 3 * len(tms)
